@@ -9,6 +9,7 @@
 #if defined(__sun)
 #define _POSIX_PTHREAD_SEMANTICS
 #endif
+#include <booster/verif_hooks.h>
 #include "session_posix_file_storage.h"
 #include <cppcms/cppcms_error.h>
 #include <cppcms/config.h>
@@ -260,6 +261,9 @@ bool session_file_storage::read_from_file(int fd,time_t &timeout,std::string &da
 		crc_calc.process_bytes(&buffer.front(),size);
 	}
 	uint32_t real_crc=crc_calc.checksum();
+#ifdef ARTYOM_BEILIS_CPPCMS_VERIF
+	if(crc != real_crc) CPPCMS_VERIF_PROBE("session_file.crc_mismatch");
+#endif
 	if(crc != real_crc)
 		return false;
 	timeout=f_timeout;
